@@ -309,6 +309,41 @@ def unicode_book(chk):
     run_queries(chk, 2, 0, cards=cards, queries=qs)
 
 
+def param_book(chk):
+    """a fixed address book for param-filter: properties with the parameter, without it, and cards
+    without the property; every combination of presence test / is-not-defined / text-match"""
+    def card(i, fn, extra):
+        lines = ["BEGIN:VCARD", "VERSION:3.0", "FN:" + fn, "N:" + fn + ";;;;"]
+        struct = [("fn", fn, {})]
+        for (name, value, params) in extra:
+            ps = "".join(";%s=%s" % (k, ",".join(v)) for k, v in params.items())
+            lines.append("%s%s:%s" % (name.upper(), ps, value))
+            struct.append((name, value, params))
+        lines += ["UID:param-%d" % i, "END:VCARD"]
+        return ("\r\n".join(lines) + "\r\n").encode("utf-8"), struct
+    cards = [card(0, "With Type", [("tel", "+1 555 0100", {"TYPE": ["home"]}), ("email", "a@x.org", {"TYPE": ["work"]})]),
+             card(1, "No Param", [("tel", "0800", {}), ("email", "b@y.org", {})]),
+             card(2, "Mixed", [("tel", "+49 30 1", {"TYPE": ["work", "voice"]}), ("tel", "112", {})]),
+             card(3, "Neither", [])]
+    qs = []
+    for prop in ("TEL", "EMAIL"):
+        for param in ("TYPE", "X-ABSENT"):
+            for nd in (False, True):
+                for tms in ([], [("equals", "home")], [("contains", "zzz")], [("equals", "work"), ("contains", "o")]):
+                    if nd and tms:
+                        continue
+                    for ptest in ("anyof", "allof"):
+                        ch = {"param": param, "nd": nd,
+                              "tms": [{"collation": "i;ascii-casemap", "negate": False, "mtype": mt, "text": t}
+                                      for (mt, t) in tms]}
+                        qs.append({"test": "allof", "limit": None, "props": [
+                            {"name": prop, "test": ptest, "nd": False, "children": [ch]}]})
+                        qs.append({"test": "allof", "limit": None, "props": [
+                            {"name": "FN", "test": "anyof", "nd": False, "children": []},
+                            {"name": prop, "test": ptest, "nd": False, "children": [ch]}]})
+    run_queries(chk, 2, 0, cards=cards, queries=qs)
+
+
 def match_grid(chk):
     """Exhaustive: every match type x collation x negate over a string grid, real code vs model."""
     from xandikos import collation
@@ -352,6 +387,7 @@ def run(chk):
     quick = chk.tier == "quick"
     run_queries(chk, 6 if quick else 60, 25 if quick else 60)
     unicode_book(chk)
+    param_book(chk)
 
 
 def replay(chk, path):
